@@ -22,7 +22,7 @@ def plan(tier, seed):
 
 def thresholds(tier):
   t = {"objects_roundtripped": 20000, "hierarchies": 400, "slice_objects": 500, "field_objects": 1000,
-       "list_element_objects": 3000, "method_port_objects": 200, "interface_objects": 500, "reelaborations": 400}
+       "list_element_objects": 3000, "method_port_objects": 200, "interface_objects": 500, "reelaborations": 400, "lock_unlock_histories": 300}
   if tier == "thorough":
     t = {k: v * 12 for k, v in t.items()}
   return t
@@ -277,6 +277,27 @@ def run_case(sh, case):
     if missing:
       W("generator-object-missing-from-get_all_object_filter", names=sorted(missing)[:6])
     results.append(set(names))
+    if rep == 1:
+      # a history: simulate the design for a moment, then unlock it again (what the closed-loop test utilities do before
+      # translating a component they have just simulated): every name must evaluate to the same object as before
+      from pymtl3 import DefaultPassGroup
+      try:
+        top.apply(DefaultPassGroup()); top.sim_reset(); top.sim_tick()
+        locked = True
+      except Exception:
+        locked = False; sh.count("hierarchies_not_simulatable")
+      if locked:
+        try:
+          top.unlock_simulation()
+        except Exception as e:
+          W("unlock_simulation-raised", error=repr(e)[:200])
+        sh.count("lock_unlock_histories")
+        for r, o in names.items():
+          try: back = eval(r, {"s": top})
+          except Exception as e:
+            W("eval-of-name-raised-after-unlock_simulation", name=r, error=repr(e)[:200]); break
+          if back is not o:
+            W("eval-of-name-yields-other-object-after-unlock_simulation", name=r, got=repr(back)[:80], got_type=type(back).__name__); break
   sh.count("hierarchies"); sh.count("reelaborations")
   if results[0] != results[1]:
     sh.violation("re-elaboration-gives-different-names", {"only_first": sorted(results[0] - results[1])[:5],
